@@ -1366,3 +1366,14 @@ def poseidon_Hash(ex, st, args, ctx):
 
 
 BASE.update({'github.com/iden3/go-iden3-crypto/poseidon.Hash': poseidon_Hash})
+
+
+def big_Sign(ex, st, args, ctx):
+    x = bigptr(ex, st, args[0]).v
+    return z3.simplify(z3.If(x == 0, bvval(0, 64), bvval(1, 64)))
+
+
+BASE.update({'(*math/big.Int).Sign': big_Sign})
+
+
+INTRINSICS.update({'verifFieldOrder': lambda ex, st, args, ctx: Big(bvval(BN254_R, BIG))})
